@@ -1142,6 +1142,48 @@ pub async fn wait_enqueued(target: u64) -> bool {
     false
 }
 
+/// the writer thread held inside a batch of its own (see `Inst::hold`)
+pub struct Hold {
+    rtx: std::sync::mpsc::Sender<()>,
+    brx: oneshot::Receiver<Result<WriteStmt, DbError>>,
+}
+impl Hold {
+    pub async fn release(self) {
+        let _ = self.rtx.send(());
+        let _ = tokio::time::timeout(Duration::from_secs(20), self.brx).await;
+    }
+}
+impl Inst {
+    /// holds the writer thread: requests validated from now on accumulate in the write buffer and are
+    /// written in ONE batch, in their order of arrival, when the hold is released
+    pub async fn hold(&self) -> Result<Hold, String> {
+        let (etx, erx) = oneshot::channel::<()>();
+        let (rtx, rrx) = std::sync::mpsc::channel();
+        let (btx, brx) = oneshot::channel();
+        let _ = self
+            .svc
+            .db
+            .writer
+            .send(WriteMessage::Write(
+                Box::new(Blocker {
+                    entered: Some(etx),
+                    release: rrx,
+                }),
+                btx,
+            ))
+            .await;
+        if tokio::time::timeout(Duration::from_secs(20), erx).await.is_err() {
+            let _ = rtx.send(());
+            return Err("the writer did not take the blocker".into());
+        }
+        Ok(Hold { rtx, brx })
+    }
+}
+
+pub fn enqueued() -> u64 {
+    cnt(&fault::counts(), "writer.enqueued")
+}
+
 #[derive(Clone, Copy, Debug, PartialEq, Eq)]
 pub enum Point {
     None,
